@@ -27,6 +27,9 @@ REWRITES = {
     'R10': 'async erased: async fn -> fn, .await deleted',
     'R11': 'derive(Clone) expanded to field-wise impl with assumed clone(x)==x',
     'R13': 'enum tuple-variant constructor used as a function value is eta-expanded: f(Variant) -> f(|x| Variant(x))',
+    'R14': 'iterator-chain initialiser (`.iter().filter(..).copied().collect()`) replaced by a call to a declared function whose contract is ASSUMED (listed in evidence); only where the chain is not what the property is about',
+    'R15': 'closure body lifted verbatim into a named function whose parameter list (closure parameters + captured variables, with types) is supplied by the unit; the enclosing iterator chain is not verified',
+    'R16': '`if C { continue; }` as a direct statement of a for-loop body becomes `if !(C) { <rest of the body> }` (Verus for-loops do not support continue)',
     'R12': 'derive(Default) expanded to the field-wise impl the derive generates (inside verus!, verified, not assumed)',
 }
 
@@ -322,7 +325,7 @@ pub assume_specification [<{q} as PartialEq>::eq] (a: &{q}, b: &{q}) -> (r: bool
     # ---------- functions ----------
     def fn(self, path, impl, fn, requires=(), ensures=(), loops=None, ghost=(), subst=(), trait=None,
            erase_async=False, mut_self=False, ret_name='r', decreases=None, keep_macros=(), external_body=False,
-           let_chains=True, fmt=True, hash_loops=(), vis='pub', recommends=(), trait_full=None, keep_arms=None, as_inherent=False, copied_loops=(), eta=(), closures=None):
+           let_chains=True, fmt=True, hash_loops=(), vis='pub', recommends=(), trait_full=None, keep_arms=None, as_inherent=False, copied_loops=(), eta=(), closures=None, continue_guards=()):
         """Extract one fn verbatim and splice its contract.  Returns a list of Seg (to be put in an impl block).
         requires/ensures: list of (name, text).  loops: {ordinal: dict(invariant=[(name,text)], decreases=text, iter='vx_it')}
         ghost: list of (anchor, text) with anchor in ('body_start',), ('body_end',), ('loop_start',k), ('loop_end',k),
@@ -445,6 +448,26 @@ pub assume_specification [<{q} as PartialEq>::eq] (a: &{q}, b: &{q}) -> (r: bool
             edits.append((L['body'][0], L['body'][0], lsegs))
             if spec.get('iter') and L['kind'] == 'for':
                 edits.append((L['expr'][0], L['expr'][0], [Seg(spec['iter'] + ': ')]))
+        # R16: guard-continue at the top level of a for-loop body
+        for k in continue_guards:
+            if k >= len(e['loops']):
+                raise LostAnchor(f'{fn}: loop #{k} not found')
+            L = e['loops'][k]
+            lb0, lb1 = L['body']
+            btxt = src[lb0:lb1].decode()
+            found = None
+            for m16 in re.finditer(r'if\s+([^{};]+?)\s*\{\s*continue\s*;?\s*\}', btxt):
+                depth = btxt[:m16.start()].count('{') - btxt[:m16.start()].count('}')
+                if depth == 1:
+                    found = m16
+                    break
+            if not found:
+                raise LostAnchor(f'{fn}: loop #{k} has no top-level `if C {{ continue; }}` (R16)')
+            s16 = lb0 + len(btxt[:found.start()].encode())
+            e16 = lb0 + len(btxt[:found.end()].encode())
+            edits.append((s16, e16, [Seg(f'if !({found.group(1).strip()}) {{')]))
+            edits.append((lb1 - 1, lb1 - 1, [Seg('} ')]))
+            self._rw('R16')
         # R3
         for k in copied_loops:
             L = e['loops'][k]
@@ -656,6 +679,79 @@ pub assume_specification [<{q} as PartialEq>::eq] (a: &{q}, b: &{q}) -> (r: bool
         else:
             self.notes.append(f'assumed (external_body) contract on krill fn {fid}')
         self.extracted.append((path, f'fn {(impl + "::") if impl else ""}{fn}' + (' [signature only, body assumed]' if external_body else '')))
+        return segs
+
+    def closure_fn(self, path, impl, fn, k, name, sig, requires=(), ensures=(), trait=None, ghost_start='', ghost_end=''):
+        """R15: the body of the k-th closure of a krill fn, verbatim, as a standalone fn `name sig`; sig must name the closure's
+        own parameters and the variables it captures, e.g. '(other: &ConfiguredRoa, roa: &ConfiguredRoa) -> (r: bool)'."""
+        kw = {'fn': fn}
+        if impl is not None:
+            kw['impl'] = impl
+        if trait is not None:
+            kw['trait'] = trait
+        src, e = find(path, 'fn', **kw)
+        if k >= len(e['closures']):
+            raise LostAnchor(f'{fn}: closure #{k} not found')
+        C = e['closures'][k]
+        cbs, cbt = C['body']
+        fid = f'{self.prop}.{self.name}.{(impl + "::") if impl else ""}{fn}.closure{k}'
+        clause_list = []
+        segs = [Seg(f'/*VXFN {fid}*/ pub fn {name}{sig}\n/*VXC*/\n')]
+        for kind, items in (('requires', requires), ('ensures', ensures)):
+            if not items:
+                continue
+            segs.append(Seg(f'        {kind}\n'))
+            for nm, text in items:
+                cid = f'{fid}.{kind}.{nm}'
+                self.clauses[cid] = {'kind': kind, 'fn': fid, 'text': ' '.join(text.split())}
+                clause_list.append(cid)
+                segs.append(Seg('            '))
+                segs.append(Seg(text.strip().rstrip(','), clause=cid, fn=fid))
+                segs.append(Seg(',\n'))
+        segs.append(Seg('/*VXCE*/{\n' + ghost_start))
+        # R1 / R2 / R5 inside the closure body, exactly as in fn()
+        edits = []
+        for m in e['macros']:
+            ms, mt = m['span']
+            if not (cbs <= ms and mt <= cbt):
+                continue
+            nm = m['name']
+            if nm in LOG_MACROS:
+                edits.append((ms, mt, [Seg('()')] if not m['stmt'] else []))
+                self._rw('R1')
+            elif nm in ('log_enabled', 'log::log_enabled'):
+                edits.append((ms, mt, [Seg('vx_log_enabled()')]))
+                self._rw('R1')
+            elif nm == 'format':
+                edits.append((ms, mt, [Seg('vx_string()')]))
+                self._rw('R2')
+        for lc in e['letchains']:
+            cs, ct = lc['cond']
+            if not (cbs <= cs and ct <= cbt):
+                continue
+            if lc['has_else']:
+                raise ToolLimit(f'{fn}: let-chain with else (R5 does not apply)')
+            cond = src[cs:ct].decode()
+            parts = [pp.strip() for pp in re.split(r'&&', cond)]
+            if not parts[0].startswith('let ') or any(pp.startswith('let ') for pp in parts[1:]):
+                raise ToolLimit(f'{fn}: let-chain shape not supported by R5: {cond}')
+            ts, tt = lc['then']
+            edits.append((cs, ct, [Seg(parts[0])]))
+            edits.append((ts + 1, ts + 1, [Seg(' if ' + ' && '.join(parts[1:]) + ' {')]))
+            edits.append((tt - 1, tt - 1, [Seg('} ')]))
+            self._rw('R5')
+        segs += _apply_edits(src, cbs, cbt, edits)
+        segs.append(Seg('\n' + ghost_end + '}'))
+        segs.append(Seg(f' /*VXEND {fid}*/\n'))
+        for sg in segs:
+            if sg.fn is None:
+                sg.fn = fid
+        cid = f'{fid}.safety'
+        self.clauses[cid] = {'kind': 'safety', 'fn': fid, 'text': 'implicit: callee preconditions, arithmetic overflow, index bounds, unwrap, panic!/unreachable! arms unreachable'}
+        clause_list.append(cid)
+        self.functions.append({'id': fid, 'path': path, 'impl': impl, 'fn': name, 'clauses': clause_list, 'loops': 0, 'trait': False})
+        self._rw('R15')
+        self.extracted.append((path, f'closure #{k} of fn {(impl + "::") if impl else ""}{fn} [body only]'))
         return segs
 
     def trait(self, path, name, methods=None, spec=''):
